@@ -46,7 +46,9 @@ structure WResult where
 
 def parseWResult (s : String) : Option WResult :=
   let s := s.trimAscii.toString
-  if s == "err" || s == "timeout" || s.startsWith "panic" then some { kind := s } else
+  if s == "err" then some { kind := s }
+  else if s.startsWith "timeout" then some { kind := "timeout" }
+  else if s.startsWith "panic" then some { kind := (s.splitOn " ").headD s } else
   if !s.startsWith "ok" then none else
   let kv := sections s
   do
